@@ -88,7 +88,10 @@ def b(x):
 def tree_case(r):
     """Coq term (bool) for one harness row, or None when the row is outside the model's table"""
     fl = LANGS.get(r.get("ln") or "")      # -ln, or shell_variant of the EditorConfig realisation
+    if r.get("per_file_ln"):
+        return None                         # the model has one forced language per invocation
     tf, ts, tl, fs = [], {}, {}, []
+    keys = {}                               # per-file option sets: the formatter table must stay a function
     for f in r["files"]:
         rel = f["rel"].encode()
         src = bytes.fromhex(f["src"])
@@ -103,10 +106,15 @@ def tree_case(r):
         ts[src[:32]] = shebang(src[:32])
         tl[rel] = lang_from_filename(f["rel"])
         if f["walked"]:
+            val = "ERR" if f["err"] else f["exp"]
+            if keys.setdefault((lang, src), val) != val:
+                return None
             if f["err"]:
                 tf.append("(%s, %s, Err 1)" % (lang, b(src)))
             else:
                 exp = bytes.fromhex(f["exp"])
+                if keys.setdefault((lang, exp), f["exp"]) != f["exp"]:
+                    return None
                 tf.append("(%s, %s, Ok %s)" % (lang, b(src), b(exp)))
                 if not f["idem"] or not f["lang_stable"]:
                     return None
@@ -150,7 +158,7 @@ def run(ctx):
     binp = ctx.go_build("c36")
     if not shfmt or not binp:
         return
-    n = 10 if ctx.tier == "quick" else 250
+    n = 8 if ctx.tier == "quick" else 250
     scratch = "/tmp/c36_%d_%d" % (os.getpid(), ctx.seed)
     rc, rows, err = ctx.jsonl([binp, "gen", "-seed", str(ctx.seed), "-n", str(n), shfmt, scratch], timeout=3000)
     rc2, prow, err2 = ctx.jsonl([binp, "pinned", shfmt, scratch + "p"], timeout=600)
@@ -161,8 +169,10 @@ def run(ctx):
                 "directories '' a a/b c a/b/d .hidden .git, contents = 1..4 snippets (already formatted / unformatted / "
                 "unformatted + parse error), optional shebang (sh bash env-bash env-mksh dash zsh bats python invalid), "
                 "sometimes no final newline; option set from -i {2,3,4,8} -bn -ci -sr -fn -kp -s -mn -ln {bash posix mksh "
-                "bats zsh}, realised as flags, as an equivalent .editorconfig, and (every third tree) as explicit file "
-                "arguments; plus pinned trees (witnesses of known findings, empty file, CRLF, no newline, hidden and VCS "
+                "bats zsh}, realised as flags, as an equivalent .editorconfig, (every third tree) as explicit file "
+                "arguments, and as an .editorconfig with one section per file name (the set with knobs flipped per file: "
+                "one invocation must format each file with its own options); plus pinned trees (per-knob leak trees: "
+                "first walked file has the knob, the following sensitive ones have not, and conversely; (witnesses of known findings, empty file, CRLF, no newline, hidden and VCS "
                 "directories). Shebangs never have leading blanks and fit in 32 bytes (known findings otherwise). "
                 "non-trivial = distinct (tree, realisation) with at least one file whose formatted bytes differ")
     for r in rows + prow:
